@@ -37,6 +37,10 @@ class AnalysisError(Exception):
     """
 
 
+class UnorderedIteration(AnalysisError):
+    """The interpreted code iterates a set where the order matters."""
+
+
 def pkg_dir() -> str:
     return os.path.join(REPO, PKG_NAME)
 
